@@ -60,9 +60,14 @@ class GenDrive(RuleAnalysis):
         if isinstance(node, ast.Yield):
             return ["Exception", CANCELLED, "BaseException"]  # the driver may throw anything in
         if isinstance(node, WithEnter) and node.is_async:
+            ce = node.item.context_expr
+            if isinstance(ce, ast.Call) and (dotted(ce.func) or "").split(".")[-1] == "aclosing":
+                return []  # aclosing.__aenter__ only returns the generator
             return ["Exception", CANCELLED, "BaseException"]
         if isinstance(node, ast.Call):
             nm = _cname(node)
+            if nm == "aclosing":
+                return []
             if nm in ACTION_CTORS or nm in ("isinstance", "remove_traceback_frames_in_place", "client_is_closing", "is_closing", "nullcontext", "timeout", "isawaitable"):
                 return []
             if self.cannot_raise(node):
@@ -167,6 +172,15 @@ class GenDrive(RuleAnalysis):
                     action = "none"
             return [self._mk(gens, action, tmo)]
         return [fact]
+
+    def with_exit(self, node, fact):
+        # `async with contextlib.aclosing(gen):` awaits gen.aclose() on every exit of the block, like try/finally
+        ce = node.item.context_expr
+        if isinstance(ce, ast.Call) and (dotted(ce.func) or "").split(".")[-1] == "aclosing" and ce.args and isinstance(ce.args[0], ast.Name) and ce.args[0].id in self.gen_vars:
+            gens = self._g(fact)
+            gens[ce.args[0].id] = "closed"
+            return [(node.kind, node.token, self._mk(gens, fact[1], fact[2]))]
+        return [(node.kind, node.token, fact)]
 
     def raise_fact(self, node, fact, token):
         gens, action, tmo = self._g(fact), fact[1], fact[2]
@@ -487,6 +501,23 @@ def check_own_closing_flag(eng, run):
             run.finding("C15.conn", fn, rets[0] if rets else fn.node, "is_closing() of the asyncio stream transport no longer answers from the adapter's own flag alone (it consults the asyncio transport / a flag raised "
                         "outside the close paths): after a connection reset the request loop stops although complete requests are still buffered - they never reach the handler")
         run.ob("C15.conn", f"{ci.name}.is_closing:own-flag-only", ok, flags=sorted(flags), raised_in=sorted(setters))
+        # ... and aclose() raises it on every path (not only when the transport underneath is still open: after a reset the loop
+        # would otherwise keep delivering buffered requests to a handler that has closed its client)
+        ac = ci.methods.get("aclose")
+        if ac is not None and flags and not isinstance(ac.node, ast.Lambda):
+            from sa.analyses.must import exits_without
+
+            def _raises_flag(x):
+                return isinstance(x, (ast.Assign, ast.AnnAssign)) and isinstance(getattr(x, "value", None), ast.Constant) and x.value.value is True \
+                    and any(isinstance(t, ast.Attribute) and t.attr in flags for t in (x.targets if isinstance(x, ast.Assign) else [x.target]))
+            try:
+                bad2, sites2 = exits_without(eng, ac, _raises_flag, raising=lambda x: False, kinds=("ret",))
+            except Exception:  # noqa: BLE001
+                bad2, sites2 = [], 1
+            if bad2 and sites2:
+                run.finding("C15.conn", ac, ac.node, f"aclose() can return without having raised the closing flag {sorted(flags)}: is_closing() stays False after the handler closed its client, "
+                            "and the request loop goes on delivering the requests that are still buffered")
+            run.ob("C15.conn", f"{ci.name}.aclose:flag-raised-on-every-path", not (bad2 and sites2))
     run.floor("C15.conn asyncio stream transports with their own closing flag", n, 1)
 
 
